@@ -26,7 +26,7 @@ fn plan(tier: Tier, _seed: u64) -> Plan {
 	Plan {
 		cases: tier.pick(160, 2000),
 		shards: 14,
-		case_timeout_s: 600,
+		case_timeout_s: 120,
 		level: "exploration",
 		rule: "one case = (2..4 sources with payload 's<i>:z/x/y' really compressed with the source's compression; each source in memory (exact or widened coverage, optionally going Pending when opened / read) or a real container file of any format that accepts it; coverages overlapping, disjoint or on different zoom levels, with holes; optionally each source and / or the overlay wrapped in zoom filters). One evaluation = one coordinate or box compared with the first-source model. Non-trivial: at least one coordinate is held by two sources and at least one only by a later source; distinct by (sources, pipeline text)".into(),
 		assumptions: vec!["tiles are compared after decoding with the compression the overlay declares (harness's own gzip / brotli); when all sources share one compression the bytes must be identical".into()],
@@ -46,6 +46,11 @@ fn finalize(_t: Tier, _p: &Plan, rep: &mut Report) {
 
 fn run_case(cx: &CaseCtx, rep: &mut Report) {
 	let mut rng = cx.rng();
+	// every fifth case on a machine with a single CPU (threads started from here inherit the restriction)
+	let _one_cpu = if cx.case % 5 == 4 { Some(guard::OneCpu::new()) } else { None };
+	if _one_cpu.is_some() {
+		rep.count("cases_on_a_single_cpu", 1);
+	}
 	let dir = cx.fresh_dir("c08");
 	let n = rng.range(2, 4) as usize;
 	let mixed = rng.chance(0.5);
